@@ -92,6 +92,15 @@ CHECKS['C14'] = ('racesim', 'exploration', '4',
     'deterministic simulation with fault injection: seeded scheduler over real client processes parked at every intercepted '
     'fs/SQL call, history checked per key against register semantics (linearizability-style) and a final-state model')
 
+CHECKS['C08'] = ('syncsim', 'exploration', '4',
+    'seeded interleavings (5-40 steps) of cache mutations, direct archive mutations, dump/load/sync with and without keys '
+    '(incl. absent keys), archived(on/off), open(other)/drop over every backend incl. null; after each step dict(cache), '
+    'the contents of the attached, parked and replaced archives and archived() are compared with a two-dict model of the '
+    'stated algebra',
+    'samples interleavings; source-text file archives are driven one rewrite per simulated second (their same-second '
+    'stale read is the C03/C04 known finding); drop() without an archive: observed outcome adopted',
+    TECH % ('interleavings of cache/archive mutations and dump/load/sync/toggle/open/drop', 'a two-dict executable model after every step'))
+
 NA = [
     ('C09', 'pure function of (signature, call form, keymap options): no history, schedule, clock, fault or restart for a simulator to vary; DESIGN.md section 5'),
     ('C10', 'pure function of a pair of calls and keymap options; the only process-dependent aspect (hash randomisation) is covered under C17; DESIGN.md section 5'),
